@@ -11,7 +11,8 @@ C06 — New constants and new worlds are always fresh.
    Implementation-side oracle (no Lean): freshness checked directly against the sentences and
    nodes on the real branch, by a walk over the objects that uses neither `Sentence.constants`
    nor `Node.worlds()` nor the cached sets.
-3. Oracle stream B (witness rules; correspondence/oracle over real runs, not a Lean theorem):
+3. Oracle stream B (witness rules; Lean side: C06_witness_step_fresh / C06_witness_replay_fresh — a witness step is
+   legal in the calculus model only with a fresh item; the sweeps of C01/C02/C09 replay every real step through it):
    for every registered logic, real tableaux on arguments whose trunks carry constants (and, for
    modal logics, injected worlds) that are not an initial segment and first occur in
    non-alphabetical order; every call of new_constant()/new_world() made by a rule is recorded,
